@@ -34,7 +34,7 @@ def run_one(m, args):
         fired = p.returncode == 1 and "VIOLATION property=%s" % m["prop"] in p.stdout
         lines = [l for l in p.stdout.splitlines() if l.startswith(("VIOLATION", "   monitor", "INCONCLUSIVE", "RESULT"))]
         res = dict(id=m["id"], prop=m["prop"], rc=p.returncode, fired=fired, wall=round(time.time() - t0, 1),
-                   monitors=sorted({l.split("monitor=")[1].split()[0] for l in lines if "monitor=" in l}),
+                   monitors=([l.split(": ", 1)[1] for l in p.stdout.splitlines() if l.startswith("MONITORS-FIRED")] or [""])[0].split(","),
                    tail=lines[-1] if lines else p.stdout[-300:])
         expect = m.get("expect", "fire")
         res["status"] = "OK" if (fired and expect == "fire") or (p.returncode == 0 and expect == "silent") else (
